@@ -18,7 +18,8 @@ import (
 // map.go (whole file) and the llgo iteration/operation wrappers of z_map.go
 // are copied mechanically from the working tree into a scratch package
 // (dropped: the package clause, //go:linkname lines, and every declaration of
-// z_map.go not named below), linked against the hand-written environment
+// z_map.go not named below; of stubs.go only add, roundupsize, memclrHasPointers
+// and memclrNoHeapPointers are taken), linked against the hand-written environment
 // harness/c06_map/shim.go, and driven against Go's own map by
 // harness/c06_map/map_test.go.
 func c06MapBounded(ck *Checker, rep *Report, opts *Options) {
@@ -82,17 +83,46 @@ func c06MapBounded(ck *Checker, rep *Report, opts *Options) {
 		return
 	}
 	os.WriteFile(filepath.Join(scratch, "zmap.go"), zb.Bytes(), 0o644)
+	// helpers of stubs.go that are plain Go: the real ones, not re-implementations
+	ssrc, err := read("stubs.go")
+	if err != nil {
+		rep.Broken = append(rep.Broken, "c06 map harness: "+err.Error())
+		return
+	}
+	sf, err := goparser.ParseFile(fset, "stubs.go", ssrc, goparser.ParseComments)
+	if err != nil {
+		rep.Broken = append(rep.Broken, "c06 map harness: "+err.Error())
+		return
+	}
+	swant := map[string]bool{"add": true, "roundupsize": true, "memclrHasPointers": true, "memclrNoHeapPointers": true}
+	var stb bytes.Buffer
+	stb.WriteString("package mapx\n\nimport \"unsafe\"\n\nvar _ unsafe.Pointer\n\n")
+	sfound := 0
+	for _, d := range sf.Decls {
+		if x, ok := d.(*ast.FuncDecl); ok && x.Recv == nil && swant[x.Name.Name] && x.Body != nil {
+			x.Doc = nil
+			sfound++
+			printer.Fprint(&stb, fset, x)
+			stb.WriteString("\n\n")
+		}
+	}
+	if sfound != len(swant) {
+		rep.Broken = append(rep.Broken, fmt.Sprintf("c06 map harness: only %d of %d helper functions found in stubs.go", sfound, len(swant)))
+		return
+	}
+	os.WriteFile(filepath.Join(scratch, "stubs.go"), stb.Bytes(), 0o644)
 	// overlay: a package directory that does not exist in the module (it must live
 	// inside runtime/internal to be allowed to import the internal helper packages)
 	pkgDir := filepath.Join(opts.RepoDir, "runtime", "internal", "zzverif", "mapx")
 	repl := map[string]string{
 		filepath.Join(pkgDir, "map.go"):      filepath.Join(scratch, "map.go"),
 		filepath.Join(pkgDir, "zmap.go"):     filepath.Join(scratch, "zmap.go"),
+		filepath.Join(pkgDir, "stubs.go"):    filepath.Join(scratch, "stubs.go"),
 		filepath.Join(pkgDir, "shim.go"):     filepath.Join(opts.VerifDir, "harness", "c06_map", "shim.go"),
 		filepath.Join(pkgDir, "map_test.go"): filepath.Join(opts.VerifDir, "harness", "c06_map", "map_test.go"),
 	}
 	for a, b := range opts.OverlayFiles {
-		if !strings.HasSuffix(a, "/runtime/internal/runtime/map.go") && !strings.HasSuffix(a, "/runtime/internal/runtime/z_map.go") {
+		if !strings.HasSuffix(a, "/runtime/internal/runtime/map.go") && !strings.HasSuffix(a, "/runtime/internal/runtime/z_map.go") && !strings.HasSuffix(a, "/runtime/internal/runtime/stubs.go") {
 			repl[a] = b
 		}
 	}
